@@ -42,7 +42,7 @@ def run_case(case):
     signal.signal(signal.SIGVTALRM, _alarm)
     sys.unraisablehook = lambda *_a: None     # the watchdog may fire inside a context that swallows exceptions
     signal.setitimer(signal.ITIMER_VIRTUAL, 3.0, 1.0)
-    world = UdpclWorld(case['mtu'], polling_ms=case.get('polling_ms'))
+    world = UdpclWorld(case['mtu'], polling_ms=case.get('polling_ms'), recv_mtu=case.get('recv_mtu'))
     once = True
     try:
         xs = [world.request(bundle_like(n, k + case['salt'])) for (k, n) in enumerate(case['lengths'])]
@@ -236,6 +236,17 @@ def executions(tier, seed):
                                                 if tier == 'thorough' else [])):
         out.append({'lengths': lengths, 'mtu': mtu, 'salt': 40 + k, 'order': lambda w: list(range(len(w.pending))),
                     'kind': 'polling-sender', 'polling_ms': iv, 'pump_ms': 4000})
+    # a receiver whose own (transmit) MTU is smaller than the datagrams its peers send: unsegmented bundles and
+    # segments larger than anything it would send itself, from the sender and from a second peer
+    for (k, (lengths, mtu, rmtu)) in enumerate([([300], None, 64), ([937, 40], None, 576), ([2500], 1200, 576),
+                                                ([700, 90], 300, 100), ([65000], None, 1400), ([120], 100, 17)]):
+        case = {'lengths': lengths, 'mtu': mtu, 'recv_mtu': rmtu, 'salt': 60 + k, 'kind': 'receiver-mtu',
+                'order': (lambda w: list(range(len(w.pending)))) if k % 2 == 0 else (lambda w: list(reversed(range(len(w.pending)))))}
+        if k % 3 == 0:
+            data = bundle_like(rmtu * 3 + 5, 990 + k)
+            half = len(data) // 2
+            case['foreign'] = [(('10.0.0.3', 40002), 0, data, [(0, half), (half, len(data) - half)], [1, 0])]
+        out.append(case)
     # MTU below the envelope (the sender cannot produce any segment)
     for mtu in ((5, 12) if tier == 'quick' else (1, 5, 12, 15, 16)):
         out.append({'lengths': [200], 'mtu': mtu, 'salt': 3, 'order': lambda w: list(range(len(w.pending))),
@@ -251,5 +262,5 @@ def executions(tier, seed):
     for c in out:
         traces.append(run_case(c))
         metas.append({'kind': c['kind'], 'lengths': c['lengths'], 'mtu': c['mtu'], 'foreign': bool(c.get('foreign')),
-                      'composed': [x[1] for x in c.get('composed', [])], 'sender_polls_ms': c.get('polling_ms', 0)})
+                      'composed': [x[1] for x in c.get('composed', [])], 'sender_polls_ms': c.get('polling_ms', 0), 'receiver_mtu': c.get('recv_mtu') or 0})
     return traces, metas
